@@ -33,7 +33,7 @@ def _two_pos_faces(rng):
     return {"h": [[gens.q(1), 1], [gens.q(2), 1]]}
 
 
-def gen_mech(rng, acyclic, recerr_p=0.04):
+def gen_mech(rng, acyclic, recerr_p=0.04, try_p=0.2, try_classes=("ValueError", "Exception")):
     ns = rng.choice([1, 1, 2, 3])
     states = []
     for i in range(ns):
@@ -71,6 +71,23 @@ def gen_mech(rng, acyclic, recerr_p=0.04):
         sent = rng.choice([[[gens.q(100 + i), 1]], [[gens.q(100 + i), 1]], [[gens.q(100 + i), 4]],
                            [[gens.q(100 + i), 2], [gens.q(200 + i), 6]]])
         states.append({"srcs": srcs, "npos": rng.randint(0, len(srcs)), "sentinel": sent, "table": table})
+    if rng.random() < try_p:
+        # a callback that protects a nested evaluation with try/except and falls back to another nested call: the
+        # protected mechanic ("bomb") fails one level further down (illegal nested limit -> ValueError, or a marker
+        # exception); the fallback must inherit the ENCLOSING limit, depth and precision
+        b = len(states)
+        boom = rng.choice([["call", 0, ["frac", 3, 2]], ["call", 0, ["int", -2]]] + ([["raise"]] if "Exception" in try_classes else []))
+        states.append({"srcs": [{"h": [[gens.q(1), 1], [gens.q(2), rng.choice([1, 3])]]}], "npos": 1, "sentinel": [[gens.q(150), 1]],
+                       "table": [[[[gens.q(1)]], ["out", gens.q(1)]], [[[gens.q(2)]], boom]]})
+        cls = "Exception" if boom == ["raise"] else rng.choice(list(try_classes))
+        rows = [(i, j) for i, st in enumerate(states[:-1]) for j, (_, t) in enumerate(st["table"]) if t[0] in ("call", "addc", "add")]
+        if not rows:
+            rows = [(0, 0)] if states[0]["table"] else []
+        for i, j in rows[:1] if rng.random() < 0.5 else rng.sample(rows, min(len(rows), 2)):
+            orig = states[i]["table"][j][1]
+            if orig[0] not in ("call", "addc", "add"):
+                orig = ["call", rng.randrange(len(states) - 1), None]
+            states[i]["table"][j][1] = ["try", cls, ["addc", gens.q(1), ["call", b, None]], orig]
     return {"states": states}
 
 
